@@ -6,6 +6,7 @@
 -/
 import Props.C13
 import Props.Family
+import Gen.Guards.Det
 import Gen.Guards.FillersOK
 import Gen.Guards.LabelsOK
 import Gen.Guards.TextLoop
@@ -83,14 +84,14 @@ theorem removeMark_total_effect (S : Schema) (hS : S ∈ familySchemas) (tr : Tr
     hat
 
 /-- `PM.C13.fillOutcome_step_wf` with its schema guards discharged for the bundled schema family -/
-theorem fillOutcome_step_wf (S : Schema) (hS : S ∈ familySchemas) (hdet : PM.C11.detB S = true) (pty : TypeId)
-    (q : Nat) (d1 : Node) (cur : Nat) (fs : List Step) (hv : C01.Valid S d1) (hattrs : S.nodeAttrsOK d1 = true)
+theorem fillOutcome_step_wf (S : Schema) (hS : S ∈ familySchemas) (pty : TypeId) (q : Nat) (d1 : Node)
+    (cur : Nat) (fs : List Step) (hv : C01.Valid S d1) (hattrs : S.nodeAttrsOK d1 = true)
     (hrun : unplacedWfRun S d1 cur cur ⟨retypeFill S pty q, 0, 0⟩ = true) (ho : FillOutcome S pty q d1 cur fs)
     (st : Step) (hst : st ∈ fs) :
     StepWF st = true ∧
     (∀ F T G1 G2 sl' ins b, st = .replaceAround F T G1 G2 sl' ins b → aroundShape F T G1 G2 sl' ins = true) :=
-  PM.C13.fillOutcome_step_wf S hdet (family_fillersOK _ hS) (family_wrapOK _ hS) (family_labelsOK _ hS) pty q d1
-    cur fs hv hattrs hrun ho st hst
+  PM.C13.fillOutcome_step_wf S (family_det _ hS) (family_fillersOK _ hS) (family_wrapOK _ hS)
+    (family_labelsOK _ hS) pty q d1 cur fs hv hattrs hrun ho st hst
 
 /-- `PM.C13.fillOutcome_step_notext` with its schema guards discharged for the bundled schema family -/
 theorem fillOutcome_step_notext (S : Schema) (hS : S ∈ familySchemas) (pty : TypeId) (q : Nat) (d1 : Node)
